@@ -155,6 +155,12 @@ func c12SameBytes(r *an.Run, m *runModel) {
 	for _, s := range sinks {
 		kinds[s.what] = true
 		v := an.Unwrap(s.bytes)
+		if s.host != m.run {
+			// seen from Run: the sinks of an output stage that is handed the bytes all emit what Run handed over
+			if lv := liftIn(m.run, s.bytes); lv != nil {
+				v = an.Unwrap(lv)
+			}
+		}
 		if first == nil {
 			first = v
 		} else if v != first {
